@@ -272,7 +272,7 @@ def run_one(m: Dict[str, Any], subs: Optional[str]) -> Dict[str, Any]:
             e = dict(os.environ, VERIF_REPO=work, VERIF_OUT=os.path.join(work, "out"), VERIF_SEED="1")
             cmd = ["/venv/bin/python", os.path.join(VERIF, "vrun.py"), pid, "--tier", "quick"]
             try:
-                p = sh(cmd, env=e, timeout=1500)
+                p = sh(cmd, env=e, timeout=420)
             except subprocess.TimeoutExpired:
                 res.setdefault("notes", []).append(f"{pid}: timeout")
                 continue
@@ -306,8 +306,12 @@ def cmd_run(a: argparse.Namespace) -> None:
     if a.limit:
         ms = ms[: a.limit]
     print(len(ms), "mutants to run", flush=True)
+    from concurrent.futures import as_completed
+
     with open(out_path, "a" if a.resume else "w", encoding="utf-8") as fh, ThreadPoolExecutor(a.jobs) as ex:
-        for k, r in enumerate(ex.map(lambda m: run_one(m, None), ms)):
+        futs = [ex.submit(run_one, m, None) for m in ms]
+        for k, f in enumerate(as_completed(futs)):
+            r = f.result()
             fh.write(json.dumps(r) + "\n")
             fh.flush()
             if k % 25 == 0:
